@@ -51,6 +51,8 @@ type tableCfg struct {
 	preJoin    bool // players given in CreateTable setting
 	midLeave   bool // allow a dealt-in player to leave while the hand runs (known finding territory)
 	slowSub    bool
+	atomicCalls bool // harness calls run as atomic (judgeable) sections; false = they interleave with the engine at statement level
+	stampede   bool // C16: every participant submits game actions at every turn, concurrently and in duplicate
 }
 
 type delivery struct {
@@ -168,6 +170,7 @@ func (w *tableWorld) drawCfg() {
 	g.rogue = c.CfgBool("rogue", 1, 4)
 	g.backendF = c.CfgBool("backend_faults", 1, 8)
 	g.judge = c.CfgBool("judge", 1, 2)
+	g.atomicCalls = c.CfgBool("atomic_calls", 3, 5)
 	g.withhold = []int{0, 0, 50, 200, 600}[c.CfgInt("withhold_i", 0, 4)]
 	g.netFaults = c.CfgBool("net_faults", 1, 3)
 	g.allinBias = []int{8, 0, 30, 80}[c.CfgInt("allin_i", 0, 3)]
@@ -196,6 +199,18 @@ func (w *tableWorld) drawCfg() {
 	}
 	if f("C08", "C11", "C13") {
 		g.midLeave = false
+	}
+	if f("C10", "C13") {
+		g.atomicCalls = true
+	}
+	if !g.atomicCalls {
+		g.judge = false
+	}
+	if f("C16") {
+		g.stampede = c.CfgBool("stampede", 4, 5)
+		if g.stampede {
+			g.judge, g.midLeave, g.pauseClose, g.backendF, g.slowSub = false, false, false, false, false
+		}
 	}
 	c.Cfg["cfg"] = fmt.Sprintf("%+v", *g)
 }
@@ -635,6 +650,15 @@ func (w *tableWorld) react(cl *tclient, t *pt.Table) {
 		w.think(cl)
 		w.act(cl.id, "pass", 0, "client")
 	default:
+		if w.cfg.stampede {
+			// everybody submits at every turn, twice, from separate tasks, without thinking
+			a, amt := w.chooseWager(cl.st, gs, p)
+			w.c.Fault("F2_simultaneous_actions")
+			for k := 0; k < 2; k++ {
+				simrt.Go(0, "stampede."+cl.id, func() { w.act(cl.id, a, amt, "client") })
+			}
+			return
+		}
 		if gs.Status.CurrentPlayer != gi {
 			return
 		}
@@ -758,16 +782,25 @@ func (w *tableWorld) actN(id, action string, amt int64, who string, depth int) e
 	var j judgedAction
 	var gc int
 	var evKey string
-	atomic := simrt.Atomic(func() {
-		gc, evKey = w.mon.preLight()
-		if judged {
-			j = w.mon.preAction(id, action, amt)
-		}
+	atomic := true
+	if w.cfg.stampede || !w.cfg.atomicCalls {
+		// the calls themselves interleave with the engine at statement level
+		gc, _ = w.mon.preLight()
+		evKey = "?"
 		err = w.rawAct(id, action, amt)
-		if judged {
-			w.mon.postAction(&j, err)
-		}
-	})
+		w.mon.markNotAtomic(gc)
+	} else {
+		atomic = simrt.Atomic(func() {
+			gc, evKey = w.mon.preLight()
+			if judged {
+				j = w.mon.preAction(id, action, amt)
+			}
+			err = w.rawAct(id, action, amt)
+			if judged {
+				w.mon.postAction(&j, err)
+			}
+		})
+	}
 	if !atomic {
 		c.Inconc("not_atomic")
 		evKey = "?"
@@ -787,6 +820,16 @@ func (w *tableWorld) actN(id, action string, amt int64, who string, depth int) e
 	return err
 }
 
+// section runs f as an atomic (judgeable) section, or plainly when the run explores interleavings
+// of the calls themselves.
+func (w *tableWorld) section(f func()) bool {
+	if w.cfg.atomicCalls {
+		return simrt.Atomic(f)
+	}
+	f()
+	return false
+}
+
 func (w *tableWorld) doReserve(who string, jp pt.JoinPlayer, rebuy bool) error {
 	c := w.c
 	w.ledgerInFlight++
@@ -795,7 +838,7 @@ func (w *tableWorld) doReserve(who string, jp pt.JoinPlayer, rebuy bool) error {
 	var before *memberSnap
 	var after *memberSnap
 	w.mon.topupInvoke(jp.PlayerID, jp.RedeemChips)
-	atomic := simrt.Atomic(func() {
+	atomic := w.section(func() {
 		before = w.mon.memberBefore()
 		err = w.eng.PlayerReserve(jp)
 		after = w.mon.memberBefore()
@@ -819,7 +862,7 @@ func (w *tableWorld) doRedeem(id string, chips int64) error {
 	var err error
 	var before, after *memberSnap
 	w.mon.topupInvoke(id, chips)
-	atomic := simrt.Atomic(func() {
+	atomic := w.section(func() {
 		before = w.mon.memberBefore()
 		err = w.eng.PlayerRedeemChips(pt.JoinPlayer{PlayerID: id, RedeemChips: chips})
 		after = w.mon.memberBefore()
@@ -837,7 +880,7 @@ func (w *tableWorld) doLeave(ids []string) error {
 	var err error
 	var before, after *memberSnap
 	w.mon.leaveInvoked(ids)
-	atomic := simrt.Atomic(func() {
+	atomic := w.section(func() {
 		before = w.mon.memberBefore()
 		err = w.eng.PlayersLeave(ids)
 		after = w.mon.memberBefore()
@@ -863,7 +906,7 @@ func (w *tableWorld) doUpdatePlayers(joins []pt.JoinPlayer, leaves []string) err
 	var err error
 	var before, after *memberSnap
 	w.mon.leaveInvoked(leaves)
-	atomic := simrt.Atomic(func() {
+	atomic := w.section(func() {
 		before = w.mon.memberBefore()
 		_, err = w.eng.UpdateTablePlayers(joins, leaves)
 		after = w.mon.memberBefore()
